@@ -281,6 +281,13 @@ var FaultKinds = []struct {
 // len(p) bytes and SPARE CAPACITY behind it (the bytes that follow it in the buffer - the next message), canaries on
 // both sides. intact reports "" while the view still holds p and the neighbours hold their canaries.
 func Arena(p []byte) (view []byte, intact func() string) {
+	view, intact, _ = Arena3(p)
+	return
+}
+
+// Arena3 is Arena with a third result that looks at the NEIGHBOURS only (for callers that overwrite the view
+// themselves afterwards).
+func Arena3(p []byte) (view []byte, intact, neighbours func() string) {
 	const pad = 48
 	buf := make([]byte, pad+len(p)+pad)
 	for i := range buf {
@@ -289,17 +296,25 @@ func Arena(p []byte) (view []byte, intact func() string) {
 	copy(buf[pad:], p)
 	want := append([]byte(nil), buf...)
 	view = buf[pad : pad+len(p)] // cap(view) = len(p)+pad
-	return view, func() string {
+	neighbours = func() string {
 		switch {
 		case !bytes.Equal(buf[:pad], want[:pad]):
 			return "the bytes in front of the slice changed"
 		case !bytes.Equal(buf[pad+len(p):], want[pad+len(p):]):
 			return "the bytes that follow the slice in its buffer (its spare capacity) changed"
-		case !bytes.Equal(buf[pad:pad+len(p)], want[pad:pad+len(p)]):
+		}
+		return ""
+	}
+	intact = func() string {
+		if w := neighbours(); w != "" {
+			return w
+		}
+		if !bytes.Equal(buf[pad:pad+len(p)], want[pad:pad+len(p)]) {
 			return "the slice itself changed"
 		}
 		return ""
 	}
+	return
 }
 
 // Transient puts ONE fault that consumes nothing in front of byte At of a stream: the Read that would deliver that
